@@ -219,6 +219,15 @@ def install_mcs_contracts():
         exp = minimal_sets(fam)
         LOG.bump('mcs_checked')
         got = [frozenset(x) for x in result]
+        extra_kw = [k for k in kw if k not in ('wcnf', 'ignore', 'deadline')] or list(a[3:])
+        if extra_kw:
+            # the call uses options this monitor does not know (e.g. a request for a subset of the family):
+            # only soundness is judged — every returned set must be a minimal member, none twice
+            LOG.bump('mcs_calls_with_unknown_options')
+            if len(got) != len(set(got)) or not set(got) <= exp:
+                LOG.viol('mcs:rc2:returned-set-is-not-a-minimal-member', got=[sorted(x) for x in got],
+                         expected_family=[sorted(x) for x in exp], options=[str(k) for k in extra_kw])
+            return
         LOG.max('max_minimal_sets', len(exp))
         if len(exp) >= 2 or any(len(x) >= 2 for x in exp):
             LOG.bump('mcs_nontrivial')
